@@ -613,6 +613,10 @@ func poolsByNamespace(pools map[string]*Pool) map[string][]string {
 			poolsForNamespace[namespace] = append(poolsForNamespace[namespace], pool.Name)
 		}
 	}
+	// pools is a map: sort the names so that equal inputs always yield equal values.
+	for _, names := range poolsForNamespace {
+		sort.Strings(names)
+	}
 	return poolsForNamespace
 }
 
